@@ -93,40 +93,44 @@ def floatNibbles : Bytes → Option (List Nat × Bytes)
       | some (ns, r) => some (hi :: lo :: ns, r)
       | none => none
 
-def nibChars (n : Nat) : List Char :=
-  if n = 10 then ['.'] else if n = 11 then ['e'] else if n = 12 then ['e', '-']
-  else if n = 14 then ['-'] else [Char.ofNat (48 + n)]
+/-- The decimal string built by `decodeFloat`, over the alphabet `0`–`9`, `.`, `e`, `-`: a
+character is modelled by a code — the digit itself, 10 for `.`, 11 for `e`, 14 for `-` (the
+codes of the nibbles that produce them); nibble `c` gives the two characters `e-`. -/
+def nibChars (n : Nat) : List Nat := if n = 12 then [11, 14] else [n]
 
-def isDig (c : Char) : Bool := '0' ≤ c ∧ c ≤ '9'
+def isDig (c : Nat) : Bool := c < 10
 
 /-- digits prefix as a number, count, rest -/
-def takeDigits : List Char → Nat → Nat → Nat × Nat × List Char
-  | c :: cs, acc, n => if isDig c then takeDigits cs (acc * 10 + (c.toNat - 48)) (n + 1) else (acc, n, c :: cs)
+def takeDigits : List Nat → Nat → Nat → Nat × Nat × List Nat
+  | c :: cs, acc, n => if isDig c then takeDigits cs (acc * 10 + c) (n + 1) else (acc, n, c :: cs)
   | [], acc, n => (acc, n, [])
 
-/-- the grammar `strconv.ParseFloat` accepts over the alphabet `0-9 . e -`, with the exact value
-`(neg, mant, exp)`; `none` = syntax error -/
-def parseDec (s : List Char) : Option (Bool × Nat × Int) :=
-  let (neg, s1) := match s with
-    | '-' :: r => (true, r)
-    | _ => (false, s)
+/-- the grammar `strconv.ParseFloat` accepts over this alphabet, after the optional sign:
+digits with an optional `.`, at least one digit, optional `e[-]digits`; the exact value
+`(mant, exp)`; `none` = syntax error -/
+def parseUnsigned (s1 : List Nat) : Option (Nat × Int) :=
   let (ip, nip, s2) := takeDigits s1 0 0
   let (mant, nfrac, ndig, s3) := match s2 with
-    | '.' :: r =>
+    | 10 :: r =>
       let (m, nf, r') := takeDigits r ip 0
       (m, nf, nip + nf, r')
     | _ => (ip, 0, nip, s2)
   if ndig = 0 then none
   else match s3 with
-    | [] => some (neg, mant, -(nfrac : Int))
-    | 'e' :: r =>
+    | [] => some (mant, -(nfrac : Int))
+    | 11 :: r =>
       let (eneg, r1) := match r with
-        | '-' :: r' => (true, r')
+        | 14 :: r' => (true, r')
         | _ => (false, r)
       let (e, ne, r2) := takeDigits r1 0 0
       if ne = 0 ∨ r2 ≠ [] then none
-      else some (neg, mant, (if eneg then -(e : Int) else (e : Int)) - (nfrac : Int))
+      else some (mant, (if eneg then -(e : Int) else (e : Int)) - (nfrac : Int))
     | _ => none
+
+def parseDec (s : List Nat) : Option (Bool × Nat × Int) :=
+  match s with
+  | 14 :: r => (parseUnsigned r).map fun v => (true, v.1, v.2)
+  | _ => (parseUnsigned s).map fun v => (false, v.1, v.2)
 
 def numDigits (x : Nat) : Nat := (digitsOf x).length
 
@@ -148,7 +152,7 @@ def decGt (m : Nat) (e : Int) (t : Nat) : Bool :=
 
 /-- value delivered by `decodeFloat` for the decimal string `s`: `ParseFloat` (syntax, range
 error on overflow), then the clamps `|x| > 1e300 → ±1e300`, `|x| < 1e-300 → 0`. -/
-def floatValue (s : List Char) : Outcome (Bool × Nat × Int) :=
+def floatValue (s : List Nat) : Outcome (Bool × Nat × Int) :=
   match parseDec s with
   | none => .err "other"
   | some (neg, m, e) =>
